@@ -118,8 +118,22 @@ func Open(dir string, opts ...walOpt) (*WAL, error) {
 	// Load or create metaDB
 	persisted, err := w.metaDB.Load(w.dir)
 	if err != nil {
+		// Load may have got as far as opening (and locking) the DB file.
+		w.metaDB.Close()
 		return nil, err
 	}
+
+	// If we fail from here on we must not leave the metaDB locked or segment
+	// files open: the caller can't close a WAL it never got and a later Open of
+	// the same dir in this process would block on the lock forever.
+	opened := false
+	var openFiles []io.Closer
+	defer func() {
+		if !opened {
+			w.closeSegments(openFiles)
+			w.metaDB.Close()
+		}
+	}()
 
 	newState := state{
 		segments:      &immutable.SortedMap[uint64, segmentState]{},
@@ -168,6 +182,7 @@ func Open(dir string, opts ...walOpt) (*WAL, error) {
 			if err != nil {
 				return nil, err
 			}
+			openFiles = append(openFiles, sw)
 			// Set the tail and "reader" for this segment
 			ss := segmentState{
 				SegmentInfo: si,
@@ -189,6 +204,7 @@ func Open(dir string, opts ...walOpt) (*WAL, error) {
 		if err != nil {
 			return nil, err
 		}
+		openFiles = append(openFiles, sr)
 
 		// Store the open reader to get logs from
 		ss := segmentState{
@@ -225,6 +241,7 @@ func Open(dir string, opts ...walOpt) (*WAL, error) {
 		if err != nil {
 			return nil, err
 		}
+		openFiles = append(openFiles, w)
 		newState.tail = w
 		// Update the segment in memory so we have a reader for the new segment. We
 		// don't need to commit again as this isn't changing the persisted metadata
@@ -263,6 +280,7 @@ func Open(dir string, opts ...walOpt) (*WAL, error) {
 	// Start the rotation routine
 	go w.runRotate()
 
+	opened = true
 	return w, nil
 }
 
